@@ -37,15 +37,34 @@ TRUSTED_BASE = [
     "regenerated tables Gen/Layout.lean (LAParams defaults, Plane gridsize) from pdfminer/layout.py, utils.py",
     "exact rationals stand for Python floats (no rounding modelled); Python str.isspace modelled by a code-point table "
     "that the harness compares with the interpreter on every run",
-    "object identity (id()) order is not modelled: when two live heap entries of group_textboxes have equal distance "
-    "the model reports a tie and only the merge-order-independent part of the tree is compared",
+    "object identity (id()) order is not modelled by the compiled driver: when two live heap entries of "
+    "group_textboxes have equal distance it reports a tie and only the merge-order-independent part of the tree is "
+    "compared; the theorems, however, are proved for EVERY heap comparison, hence for every id() order",
 ]
 ASSUMPTIONS = [
     "coordinates and LAParams are exact rationals (fractions.Fraction on the Python side); IEEE rounding is not modelled",
     "glyph boxes are well formed (x0<=x1, y0<=y1) as LTChar.__init__ guarantees; every item is a distinct object",
     "an LTFigure is analysed as its own layout container (all_texts) and is an opaque item of its parent",
 ]
-STATEMENT_STATUS: Dict[str, str] = {}
+STATEMENT_STATUS: Dict[str, str] = {
+    "C08_terminates": "proved (fuel 3n^2+1 of the group_textboxes loop never exhausted; for every heap comparison)",
+    "C08_gtb_fuel_suffices": "proved",
+    "C08_no_internal_error": "proved (no KeyError in plane.remove, no dangling heap entry)",
+    "C08_group_objects_conserve": "proved (order-preserving)",
+    "C08_group_textlines_conserve": "proved (partition invariant; uses C20 plane_find; page box well formed)",
+    "C08_group_textboxes_conserve": "proved (for every heap comparison, i.e. every id() tie-break)",
+    "C08_conserve_glyphs": "proved (multiset of glyphs in the result = input)",
+    "C08_conserve_others": "proved",
+    "C08_figure": "proved (definition of LTFigure.analyze; nested figures are analysed container by container)",
+    "C08_lines": "proved (>=1 glyph, bbox = tight hull, one orientation, exactly one trailing line break)",
+    "C08_boxes": "proved (>=1 line, bbox = tight hull, lines in descending y1 / x1)",
+    "C08_index": "proved for both boxes_flow branches (after fix bdb2e94)",
+    "C08_hierarchy": "proved (leaves in DFS order = output boxes; group bbox, class, member order)",
+    "C08_text_line": "proved (definitional)", "C08_text_box": "proved (definitional)",
+    "C08_text_group": "proved (definitional)", "C08_text_line_break": "proved",
+    "not proved": "a box holds only lines of its own class; group_textboxes returns at most one root (both checked "
+                  "on the implementation by the oracle)",
+}
 
 CLASSIFIERS = {
     # kept for the record: both were fixed in the repo, no open finding uses them
@@ -341,7 +360,7 @@ def run(ctx: C.Ctx) -> None:
     batch = Batch(ctx)
     run_corpus(ctx, batch)
     run_isspace(ctx)
-    n = ctx.n(500, 12000)
+    n = ctx.n(1500, 6000)
     big = 40 if ctx.tier == "quick" else 300
     for i in range(n):
         if not ctx.time_left():
